@@ -188,6 +188,16 @@ func (t *Tree) Extend(parent *Block, o MineOpts) *Block {
 	switch o.Break {
 	case "version":
 		hdr.Version = 1
+	case "bits-noclamp":
+		// The difficulty a client without the retarget limits would
+		// expect; where the limits do not bite, fall back to "bits".
+		if ub := UnclampedBits(t.P, chain, ts); ub != hdr.Bits && CompactToBig(ub).Sign() > 0 &&
+			CompactToBig(ub).Cmp(t.P.PowLimit) <= 0 && Work(ub).BitLen() <= 20 {
+			hdr.Bits = ub
+		} else {
+			hdr.Bits = hdr.Bits - 1
+		}
+		o.Break = "bits"
 	case "bits":
 		// An easier-or-equal-looking but wrong target: flip a low
 		// mantissa bit so the value differs from the required one while
